@@ -7,11 +7,12 @@ ID = 'C01'
 PINS = [('plasTeX/Tokenizer.py', 'Tokenizer.iterchars'), ('plasTeX/Tokenizer.py', 'Tokenizer.__iter__'),
         ('plasTeX/Tokenizer.py', 'Tokenizer.readline'), ('plasTeX/Tokenizer.py', 'Tokenizer.pushChar'),
         ('plasTeX/Context.py', 'Context.whichCode'), ('plasTeX/Context.py', 'Context.catcode'),
-        ('plasTeX/Context.py', 'Context.setVerbatimCatcodes'), ('plasTeX/TeX.py', 'TeX.itertokens')]
+        ('plasTeX/Context.py', 'Context.setVerbatimCatcodes'), ('plasTeX/TeX.py', 'TeX.itertokens'),
+        ('plasTeX/Context.py', 'Context.push'), ('plasTeX/Context.py', 'Context.pop')]
 RULE = ('strings over the adversarial alphabet of the property (escape, braces, $ & # ^ _ ~ %, blank, tab, newline, CR, NUL, FF, letters, '
         'digits, @, non-ASCII, ^^-sequences incl. at end of input) under tables {default, @-letter, verbatim, default + random \\catcode '
         'assignments}; exhaustive over all strings up to a length bound over a 12-symbol alphabet under the default table; a stream '
-        'that changes category codes after k pulled tokens; observed through Tokenizer(source, context) and TeX.input(s).itertokens(). '
+        'that changes category codes after k pulled tokens; \\catcode assignments inside nested groups (Context.push / pop), probed after groups are left; observed through Tokenizer(source, context) and TeX.input(s).itertokens(). '
         'Non-trivial = at least 3 characters and at least one character that is neither letter nor other.')
 TRUSTED = ['modelled, not verified: StringIO.read(1) as list traversal; line-number bookkeeping ignored; \\let aliases (Context.get_let) are the '
            'identity in the contexts used here (covered by C04)']
@@ -73,11 +74,41 @@ def streams(rng, tier, boost):
     for i in range((300 if tier == 'quick' else 3000) * boost):
         chars = [rng.choice([33, 94, 64]) for _ in range(rng.randint(2, 6))]
         out.append(('table-reassign', dict(kind='table', ops=[[c, rng.randint(0, 15)] for c in chars], cs=probe)))
+    # table algebra under grouping: assignments inside nested groups, probes after some of the groups have been left
+    for ops in GROUP_CORPUS:
+        out.append(('table-groups', dict(kind='gtable', ops=ops, cs=probe)))
+    for i in range((1500 if tier == 'quick' else 15000) * boost):
+        out.append(('table-groups', dict(kind='gtable', ops=rand_gops(rng, rng.randint(3, 14)), cs=probe)))
     # table algebra alone
     for i in range((200 if tier == 'quick' else 2000) * boost):
         out.append(('table-algebra', dict(kind='table', ops=rand_ops(rng, rng.randint(1, 10)),
                                           cs=[ord(c) for c in '@\\{}%^ \n\raM~|!#\x001$'])))
     return out
+
+
+GROUP_CORPUS = [
+    [[0, 16], [64, 11], [0, 16], [37, 12], [0, 17]],
+    [[0, 16], [64, 11], [0, 16], [37, 12], [0, 17], [0, 17]],
+    [[0, 16], [0, 16], [37, 12], [0, 17], [64, 11], [0, 17]],
+    [[33, 13], [0, 16], [33, 14], [0, 16], [33, 11], [0, 16], [33, 0], [0, 17], [0, 17]],
+    [[0, 16], [33, 13], [0, 16], [0, 16], [94, 12], [0, 17], [33, 11], [0, 17]],
+]
+
+
+def rand_gops(rng, n):
+    """assignments (c, k<16), group entry (., 16), group exit (., 17; only while a group is open)"""
+    ops, depth = [], 0
+    for _ in range(n):
+        r = rng.random()
+        if r < 0.3 and depth < 4:
+            ops.append([0, 16])
+            depth += 1
+        elif r < 0.55 and depth > 0:
+            ops.append([0, 17])
+            depth -= 1
+        else:
+            ops.append([rng.choice([33, 94, 64, 37, 92, 123]), rng.randint(0, 15)])
+    return ops
 
 
 def search_streams(rng, tier):
@@ -86,6 +117,9 @@ def search_streams(rng, tier):
 
 
 def describe(case):
+    if case.get('kind') == 'gtable':
+        return dict(grouped_catcode_ops=[('begin-group' if k == 16 else 'end-group' if k == 17 else ('catcode', c, k)) for c, k in case['ops']],
+                    probe=case['cs'])
     if case.get('kind') == 'table':
         return dict(catcode_ops=case['ops'], probe=case['cs'])
     return dict(table='default' if case['base'] == 0 else 'verbatim', catcode_ops=case['ops'], string=case['s'],
@@ -93,6 +127,8 @@ def describe(case):
 
 
 def model_input(case):
+    if case.get('kind') == 'gtable':
+        return [8, case['ops'], case['cs']]
     if case.get('kind') == 'table':
         return [9, case['ops'], case['cs']]
     return [case['base'], case['ops'], [ord(c) for c in case['s']], case['sched']]
@@ -109,6 +145,16 @@ def worker_init():
 def run_impl(case):
     from plasTeX.Context import Context
     from plasTeX.Tokenizer import Tokenizer
+    if case.get('kind') == 'gtable':
+        ctx = Context(load=False)
+        for c, k in case['ops']:
+            if k == 16:
+                ctx.push()
+            elif k == 17:
+                ctx.pop()
+            else:
+                ctx.catcode(chr(c), k)
+        return [ctx.whichCode(chr(c)) for c in case['cs']]
     if case.get('kind') == 'table':
         ctx = Context(load=False)
         for c, k in case['ops']:
@@ -152,13 +198,15 @@ def run_impl(case):
 
 
 def nontrivial(case, io):
-    if case.get('kind') == 'table':
+    if case.get('kind') in ('table', 'gtable'):
         return len(case['ops']) >= 2
     s = case['s']
     return len(s) >= 3 and any(not (c.isalnum()) for c in s)
 
 
 def tags(case, io):
+    if case.get('kind') == 'gtable':
+        return ['table-groups', 'max-depth-%d' % max([0] + [sum(1 if k == 16 else -1 if k == 17 else 0 for _, k in case['ops'][:i + 1]) for i in range(len(case['ops']))])]
     if case.get('kind') == 'table':
         return ['table-algebra']
     t = ['via=' + case['via'], 'len<=%d' % (min(8, 1 << (max(len(case['s']), 1) - 1).bit_length()) if len(case['s']) <= 8 else (64 if len(case['s']) <= 64 else 1000))]
@@ -185,6 +233,22 @@ def judge(case, io, mo):
 
 
 def shrink(case):
+    if case.get('kind') == 'gtable':
+        ops = case['ops']
+        for i in range(len(ops)):
+            if ops[i][1] < 16:
+                yield dict(case, ops=ops[:i] + ops[i + 1:])
+            elif ops[i][1] == 16:
+                # drop a group entry together with its exit (or alone when it is never left)
+                d = 0
+                for j in range(i, len(ops)):
+                    d += 1 if ops[j][1] == 16 else -1 if ops[j][1] == 17 else 0
+                    if d == 0:
+                        yield dict(case, ops=ops[:i] + ops[i + 1:j] + ops[j + 1:])
+                        break
+                else:
+                    yield dict(case, ops=ops[:i] + ops[i + 1:])
+        return
     if case.get('kind') == 'table':
         for i in range(len(case['ops'])):
             yield dict(case, ops=case['ops'][:i] + case['ops'][i + 1:])
